@@ -2,7 +2,7 @@
    [all_msgs], [nas_types], the dispatch tables are regenerated from /repo on every run;
    [decode_def] is the meaning of the generator template (Codec/Sem.v), tied to the Go code by
    the canonical-program check below and by the correspondence run. *)
-From NV Require Import Lib.Base Codec.Lang Codec.Def Codec.Sem Codec.Total Codec.Cost Codec.Dispatch Codec.DispatchProofs Codec.GenDefs Codec.Final
+From NV Require Import Lib.Base Codec.Lang Codec.Def Codec.Sem Codec.Total Codec.Cost Codec.Dispatch Codec.DispatchProofs Codec.GenDefs Codec.Stmt Codec.StmtProofs Codec.Final
   Gen.GenMsgs Gen.GenTypes Gen.GenDispatch.
 From Coq Require Import String.
 Open Scope N_scope.
@@ -70,6 +70,22 @@ Example C01_big_request_is_real :
 Proof. split; vm_compute; reflexivity. Qed.
 
 
+(* ---- the same, on the transliterated PROGRAMS run statement by statement (Codec/Stmt.v):
+   every generated Decode* function, executed as the sequence of its Go statements, computes
+   decode_def of its definition (exec_dec_is_decode_def), hence is total *)
+Theorem C01_programs_are_decode_def : forall g bs, In g all_msgs ->
+  exec_dec nas_types g bs = decode_def (def_of nas_types g) bs.
+Proof. exact generated_decoder. Qed.
+
+Theorem C01_programs_total : forall g bs, In g all_msgs -> is_total (exec_dec nas_types g bs).
+Proof. exact program_decode_total. Qed.
+
+(* for ANY definition with distinct field names: the generator template run statement by statement is decode_def *)
+Theorem C01_template_is_decode_def : forall d shape_of, NoDup (map sd_name d) ->
+  (forall sd, In sd d -> shape_of (sd_name sd) = sd_shape sd) -> forallb stmt_okb d = true -> forall bs,
+  omap s_fields (exec_top (map sd_name d) shape_of (canon_dec d) (mkst (initf d) 0 bs)) = decode_def d bs.
+Proof. exact exec_canon_dec. Qed.
+
 Print Assumptions C01_all_canonical.
 Print Assumptions C01_all_wf.
 Print Assumptions C01_decode_total.
@@ -79,3 +95,6 @@ Print Assumptions C01_plain_decode_total.
 Print Assumptions C01_decode_cost_bound.
 Print Assumptions C01_all_cost.
 Print Assumptions C01_message_decode_cost.
+Print Assumptions C01_programs_are_decode_def.
+Print Assumptions C01_programs_total.
+Print Assumptions C01_template_is_decode_def.
